@@ -12,6 +12,8 @@ address-space limit by the `codec` suite, not proved. Theorems depending on that
 -/
 import SeliumModel.Lemmas.Total
 import SeliumModel.Client.Codecs
+import SeliumModel.Client.Subscriber
+import SeliumModel.Gen.Client
 
 namespace Selium.Client
 open Selium Selium.Bincode Selium.Wire
@@ -144,6 +146,108 @@ theorem c06_pipeline_total_uncompressed {α} (c : Codec α) (hc : ∀ b s, c.dec
     recvOne c noCompression w ≠ .panic s ∧ recvBatch c noCompression w ≠ .panic s :=
   c06_pipeline_total_partial c hc noCompression (by intro b s; simp [noCompression]) w s
 
+/-! ### the subscriber's `poll_next` itself: bounded work, bounded stack, no panic
+
+`Client/Subscriber.lean` models one call of `Subscriber::poll_next` with the stack depth it reaches. Frames that
+yield nothing (empty batches) make it go on to the next frame; done by self-call that costs one stack frame per
+such frame — `c06_recursive_subscriber_stack_grows` — so a publisher could overflow the consumer's stack with a
+run of 17-byte frames; done by a loop the depth is 1 whatever arrives. Which of the two the code does is read
+from the source (`Gen.Client.subscriberPollNextRecurses`). -/
+
+/-- one call of `poll_next` ends: it looks at each buffered frame at most once -/
+theorem c06_subscriber_poll_terminates {α} (c : Codec α) (z : Compressor) (r : Bool) (fuel : Nat) (s : Sub)
+    (h : s.script.length < fuel) : ∀ o s' d, Sub.pollNext c z r fuel s = (o, s', d) → o ≠ .outOfFuel := by
+  induction fuel generalizing s with
+  | zero => omega
+  | succ n ih =>
+    intro o s' d hp
+    unfold Sub.pollNext at hp
+    split at hp
+    · cases hp; simp
+    · split at hp
+      · cases hp; simp
+      · cases hp; simp
+      · cases hp; simp
+      · cases hp; simp
+      · cases hp; simp
+      · rename_i b q hq
+        split at hp
+        · split at hp
+          · rename_i ms _
+            have hl : ({ batch := ms, script := q } : Sub).script.length < n := by
+              simp only [hq, List.length_cons] at h; simpa using (by omega : q.length < n)
+            cases hp
+            exact ih { batch := ms, script := q } hl _ _ _ rfl
+          · cases hp; simp
+          · cases hp; simp
+        · cases hp; simp
+        · cases hp; simp
+
+/-- written as a loop, a call of `poll_next` never nests: the stack depth is 1 whatever frames arrive -/
+theorem c06_subscriber_stack_bounded {α} (c : Codec α) (z : Compressor) (fuel : Nat) (s : Sub) :
+    (Sub.pollNext c z false fuel s).2.2 ≤ 1 := by
+  induction fuel generalizing s with
+  | zero => simp [Sub.pollNext]
+  | succ n ih =>
+    unfold Sub.pollNext
+    split
+    · simp
+    · split <;> try simp
+      split
+      · split
+        · simpa using ih _
+        · simp
+        · simp
+      · simp
+      · simp
+
+/-- … and the code is written that way (regenerated from `subscriber.rs` on every run) -/
+theorem c06_subscriber_does_not_recurse : Gen.Client.subscriberPollNextRecurses = false := by decide
+
+/-- The defect this guards against, for the record: with the self-call, `n` empty batch frames followed by a message
+    put `n + 1` activations on the stack in a single call — unbounded in what a publisher sends. -/
+theorem c06_recursive_subscriber_stack_grows (n : Nat) (b : Bytes) :
+    (Sub.pollNext bytesCodec noCompression true (n + 2)
+      { batch := [], script := List.replicate n (.frame (.batch (beBytes 8 0))) ++ [.frame (.message b)] }).2.2 = n + 1 := by
+  induction n with
+  | zero => simp [Sub.pollNext]
+  | succ k ih =>
+    have hd : decodeBatch (beBytes 8 0) = .ok [] := by decide
+    rw [List.replicate_succ, List.cons_append]
+    unfold Sub.pollNext
+    simp only [noCompression, hd, if_true]
+    simp only [noCompression] at ih
+    rw [ih]
+
+/-- no item a subscriber yields is a panic, for a panic-free codec and a total decompressor -/
+theorem c06_subscriber_total_partial {α} (c : Codec α) (hc : ∀ b s, c.decode b ≠ .panic s) (z : Compressor) (hz : z.Total)
+    (r : Bool) (fuel : Nat) (s : Sub) (x : Res α) (h : (Sub.pollNext c z r fuel s).1 = .item x) : ∀ e, x ≠ .panic e := by
+  induction fuel generalizing s with
+  | zero => simp [Sub.pollNext] at h
+  | succ n ih =>
+    unfold Sub.pollNext at h
+    split at h
+    · cases h; exact hc _
+    · split at h
+      · simp at h
+      · simp at h
+      · cases h; simp
+      · cases h; intro e; exact (c06_pipeline_total_partial c hc z hz _ e).1
+      · simp at h
+      · split at h
+        · split at h
+          · exact ih _ h
+          · cases h; simp
+          · rename_i e he; exact absurd he (decodeBatch_no_panic _ e)
+        · cases h; simp
+        · rename_i e he; exact absurd he (hz _ e)
+
+/-- hypotheses are met: three empty batches then a message is four deep with the self-call, one deep with the loop -/
+example : (Sub.pollNext bytesCodec noCompression true 9
+    { script := [.frame (.batch (beBytes 8 0)), .frame (.batch (beBytes 8 0)), .frame (.batch (beBytes 8 0)), .frame (.message [97])] }).2.2 = 4 := by decide
+example : (Sub.pollNext bytesCodec noCompression false 9
+    { script := [.frame (.batch (beBytes 8 0)), .frame (.batch (beBytes 8 0)), .frame (.batch (beBytes 8 0)), .frame (.message [97])] }).2.2 = 1 := by decide
+
 /-! Non-vacuity: the inputs that crashed the unrepaired decoders are errors now. -/
 example : decodeBatch [0, 0, 0] = .err "batch-truncated" := by decide
 example : decodeBatch (beBytes 8 1 ++ beBytes 8 (2^64 - 1)) = .err "batch-truncated" := by decide
@@ -162,3 +266,8 @@ end Selium.Client
 #print axioms Selium.Client.mapRes_no_panic
 #print axioms Selium.Client.c06_pipeline_total_partial
 #print axioms Selium.Client.c06_pipeline_total_uncompressed
+#print axioms Selium.Client.c06_subscriber_poll_terminates
+#print axioms Selium.Client.c06_subscriber_stack_bounded
+#print axioms Selium.Client.c06_subscriber_does_not_recurse
+#print axioms Selium.Client.c06_recursive_subscriber_stack_grows
+#print axioms Selium.Client.c06_subscriber_total_partial
